@@ -475,6 +475,33 @@ class Facts:
         self.dyn_edges = dyn
         return cg
 
+    def projection_summary(self, key):
+        """Return term of a local function whose result is a pure projection/aggregate of its
+        parameters (getter summary), else None."""
+        if not hasattr(self, '_psum'):
+            self._psum = {}
+        if key in self._psum:
+            return self._psum[key]
+        self._psum[key] = None
+        bs = self.by_key.get(key)
+        if not bs or len(bs) != 1:
+            return None
+        b = bs[0]
+        if b.nblocks > 12 or b.kind not in ('fn', 'assoc_fn'):
+            return None
+        og = Origins(b)
+        rets = b.return_blocks()
+        if len(rets) != 1:
+            return None
+        t = og.of_local(0, rets[0], 'term')
+        bad = ('call', 'phi', 'unknown', 'local', 'bin', 'un', 'discr', 'index')
+        if term_has(t, lambda x: x[0] in bad):
+            return None
+        if not term_has(t, lambda x: x[0] == 'param'):
+            return None
+        self._psum[key] = t
+        return t
+
     def reachable_fns(self, roots):
         cg = self.callgraph()
         seen = set()
@@ -564,10 +591,11 @@ class Origins:
       ('unknown', why)
     """
 
-    def __init__(self, body, transparent=True, max_depth=40):
+    def __init__(self, body, transparent=True, max_depth=40, summaries=False):
         self.b = body
         self.transparent = transparent
         self.max_depth = max_depth
+        self.summaries = summaries
         self._memo = {}
         self._defsites = None
 
@@ -761,6 +789,10 @@ class Origins:
         if self.transparent and is_transparent_call(t) and args:
             return args[0]
         name = strip_generics(callee_res(t) or '?') if 'def' in t['f'] else 'indirect'
+        if self.summaries and 'def' in t['f']:
+            sm = self.b.facts.projection_summary(norm_path(callee_res(t)))
+            if sm is not None:
+                return subst_params(sm, args)
         return ('call', name, args, bb)
 
     def _rvalue(self, rv, bb, si, depth):
@@ -1126,3 +1158,15 @@ class Pos:
 
     def can_reach(self, src, dst, avoid_pos=(), avoid_edges=()):
         return self.norm(dst) in self.reach(src, avoid_pos=avoid_pos, avoid_edges=avoid_edges)
+
+
+def subst_params(t, args):
+    tag = t[0]
+    if tag == 'param':
+        i = t[1] - 1
+        return args[i] if 0 <= i < len(args) else ('unknown', 'param')
+    if tag in ('field', 'variant'):
+        return (tag, t[1], subst_params(t[2], args))
+    if tag == 'agg':
+        return ('agg', t[1], tuple(subst_params(a, args) for a in t[2])) + tuple(t[3:])
+    return t
